@@ -14,6 +14,7 @@ CONSTANTS
   Pres = {3}
   N0s = {0}
   Contig = FALSE
+  DropStale = FALSE
 VIEW View
 INVARIANTS TypeOK C22
 PROPERTIES C22R C16M
